@@ -118,14 +118,6 @@ func flight0Parse(
 		return 0, &alert.Alert{Level: alert.Fatal, Description: alert.InsufficientSecurity}, dtlserrors.ErrServerRequiredButNoClientEMS //nolint:lll
 	}
 
-	if state.LocalKeypair == nil {
-		var err error
-		state.LocalKeypair, err = elliptic.GenerateKeypair(state.NamedCurve)
-		if err != nil {
-			return 0, &alert.Alert{Level: alert.Fatal, Description: alert.IllegalParameter}, err
-		}
-	}
-
 	state.RemoteClientHelloSnapshots.Reset()
 	if err := state.RemoteClientHelloSnapshots.RecordWire(pull.Items[0].Raw.Data); err != nil {
 		return 0, nil, err
@@ -138,6 +130,23 @@ func flight0Parse(
 	}
 
 	return handleHelloResume(clientHello.SessionID, state, cfg, nextFlight)
+}
+
+// ensureLocalKeypair generates the server's ephemeral key pair for the selected
+// curve once, when the server key exchange is built (flight 4). It is not done
+// while parsing the first ClientHello: an address that has not echoed the cookie
+// must not make the server commit key-exchange work.
+func ensureLocalKeypair(state *dtlsstate.State12) (*alert.Alert, error) {
+	if state.LocalKeypair != nil {
+		return nil, nil
+	}
+	keypair, err := elliptic.GenerateKeypair(state.NamedCurve)
+	if err != nil {
+		return &alert.Alert{Level: alert.Fatal, Description: alert.IllegalParameter}, err
+	}
+	state.LocalKeypair = keypair
+
+	return nil, nil
 }
 
 func handleHelloResume(
